@@ -1,4 +1,5 @@
 # Frame / history generators for the node harness (shared by the node-level property checks)
+from nodesim import own_addr
 import random
 
 MODES = [1, 1, 1, 2, 2, 0, 3, 4]
@@ -99,7 +100,7 @@ def cfg_line(r, ndev=None, mode=None, cold=None, hb=None, extra=''):
 
 def random_history(r, n_ops=40, group_function=False):
     line, ndev, src0, mode = cfg_line(r)
-    own = [(src0 + i) & 255 for i in range(ndev)]
+    own = [own_addr(src0, i) for i in range(ndev)]
     peers = [50, 51, 52, own[0], 254, 255, 0, 251, 23]
     ops = []
     for _ in range(n_ops):
